@@ -198,7 +198,7 @@ def check_spec(ctx, spec, points, record=True):
                 sv = b2f(fm[pi][skey][ri])
                 # Hill and general rates go through Cython's complex `**` (std::pow on
                 # std::complex = exp(n*log x)), which is not libm pow: a few ulps are allowed there
-                ulp_tol = 0 if exact else 64
+                ulp_tol = 0 if exact else 2
                 if ulps(mv, got_bare) > ulp_tol or ulps(mv, got_plain) > ulp_tol:
                     ctx.broke("corr_C01_float_model_vs_implementation",
                               {"spec": spec, "point": str(pt), "reaction": ri, "mode": m, "model": mv, "bare": got_bare, "plain": got_plain})
